@@ -97,7 +97,7 @@ def signatures(pool):
         'arrayJoin': [cont[:1] + cont[2:4] + cont[5:], S([', ', '', 'é'])],
         'stringLower': [S(STRS)], 'stringUpper': [S(STRS)],
         'systemIs': [anyv, anyv],
-        'stringNew': [DATES + cont], 'systemLog': [DATES + cont], 'systemLogDebug': [DATES[:2] + cont[:3]],
+        'stringNew': [DATES + cont + NUMS[:26]], 'systemLog': [DATES + cont + NUMS[8:26]], 'systemLogDebug': [DATES[:2] + cont[:3] + NUMS[13:16]],
     }
     for g in ('Year', 'Month', 'Day', 'Hour', 'Minute', 'Second', 'Millisecond'):
         sig['datetime' + g] = [DATES]
@@ -269,7 +269,8 @@ def gen_random(r, tier):
         radix = r.choice([2, 8, 10, 16, 36, r.randint(2, 36)])
         digs = ''.join(r.choice('0123456789abcdefghijklmnopqrstuvwxyzABCXYZ_'[:max(radix, 2) + r.choice([0, 0, 0, 2])]) for _ in range(r.randint(1, 12)))
         add('numberParseInt', [['str', r.choice(['', '-', '+', ' ']) + r.choice(['', '', '0x', '0b', '0o', '0X']) + digs], vflt(float(radix))])
-        v = _rand_json(r, 3, True)
+        add(r.choice(['stringNew', 'stringNew', 'systemLog']), [fl(x)])
+        v = _rand_json(r, 3, r.random() < 0.5)
         add('jsonStringify', [_spec_of(v, pool)] + ([r.choice([vflt(1.0), vflt(2.0), vint(3), ['null']])] if r.random() < 0.5 else []))
         add(r.choice(['stringNew', 'systemLog']), [_spec_of(v if isinstance(v, (list, dict)) else [v], pool)])
         w = _rand_json(r, 3, False)
@@ -344,6 +345,8 @@ nums = arrayNew()
 for v, ix in vals:
     arrayPush(outp, numberToFixed(v, ix % 4) + '/' + numberToFixed(v, 2, true) + '/' + mathRound(v) + '/' + mathFloor(v) + '/' + mathCeil(v) + '/' + mathSign(v))
     arrayPush(nums, mathRound(v, 1), mathAbs(v), mathSqrt(mathAbs(v)))
+    systemLog(stringNew(mathSqrt(mathAbs(v))) + ' ' + stringNew(v / 3))
+    systemLog(v * 1.1)
 endfor
 systemLog(arrayJoin(outp, ' '))
 return arrayNew(outp, nums)
